@@ -318,6 +318,18 @@ pub fn flat(w: &mut World, p: &Profile) -> Plan {
                 distinguished: None,
             };
         }
+        // one run in four: `x.wait_until(d1).wait_until(d2)` written as a method chain on the concrete type
+        // (leaves = [inner, d1, d2]); d1 must stay untouched until d2 resolved, the inner until both did
+        if w.ch.draw("wait.chained", 4) == 3 {
+            let d2 = fut_script(w, false, p, false, 0);
+            return Plan {
+                shape: Shape::Flat { fam, cont: Cont::Tuple, n: 3, plain: false, unit: false },
+                leaves: vec![inner, deadline, d2],
+                cancel_at: None,
+                max_yields: u32::MAX,
+                distinguished: None,
+            };
+        }
         return Plan {
             shape: Shape::Flat { fam, cont: Cont::Tuple, n: 2, plain: false, unit: false },
             leaves: vec![inner, deadline],
